@@ -105,9 +105,11 @@ m = {
  "engines": [
    {"name": "harness", "path": "/verif/harness", "serves_properties": [c["property_id"] for c in checks],
     "kind_free_text": "Rust crate (toolchain 1.79, repo lockfile): E1 svm-lite execution environment for marginfi::entry, E2 hand-written explicit-state explorer (BFS, canonical-state dedup), E3 exact reference arithmetic, per-property procedures, evidence writer"},
+   {"name": "conf", "path": "/verif/conf", "serves_properties": [c["property_id"] for c in checks],
+    "kind_free_text": "E4 conformance replay (`./conformance.sh`): a covering set of transactions (every instruction kind's golden call and a refusal, one history transition per (action kind, result code) in four token worlds, every receivership / flash-loan transaction shape up to length 2 plus all committed brackets and one refusal per code, incl. CPI through a proxy program) is executed by E1 and by solana-program-test 2.1.20 with marginfi::entry as a native processor; outcomes and post-state account bytes must agree; result in evidence/E4-conformance.json"},
  ],
  "checks": checks,
- "notes": "All checks run `./check <ID>`, which rebuilds the harness (and with it the program from /repo's working tree) before exploring. Exit 0 = held / only known findings; 1 = VIOLATION; 2 = machinery failure (never a verdict).",
+ "notes": "All checks run `./check <ID>`, which rebuilds the harness (and with it the program from /repo's working tree) before exploring. Exit 0 = held / only known findings; 1 = VIOLATION; 2 = machinery failure (never a verdict). `./conformance.sh` (about 12 minutes) validates the execution environment against solana-program-test; it is not a property check.",
  "not_applicable": na,
 }
 json.dump(m, open(os.path.join(ROOT, 'MANIFEST.json'), 'w'), indent=1)
